@@ -7,6 +7,7 @@ from jaxtyping import Float
 from torch import Tensor
 
 from linear_operator.operators._linear_operator import LinearOperator, to_dense
+from linear_operator.operators.dense_linear_operator import to_linear_operator
 
 from linear_operator.utils.broadcasting import _pad_with_singletons
 from linear_operator.utils.getitem import _noop_index, IndexType
@@ -259,7 +260,7 @@ class KernelLinearOperator(LinearOperator):
         x1_ = self.x1[(*batch_indices, row_index.div(num_outs_per_in_rows, rounding_mode="floor"))].unsqueeze(
             -2
         )  # x1 will have shape ... x 1 x 1
-        x2_ = self.x2[(*batch_indices, col_index.div(num_outs_per_in_rows, rounding_mode="floor"))].unsqueeze(
+        x2_ = self.x2[(*batch_indices, col_index.div(num_outs_per_in_cols, rounding_mode="floor"))].unsqueeze(
             -2
         )  # x2 will have shape ... x 1 x 1
         tensor_params_ = {name: val[batch_indices] for name, val in self.tensor_params.items()}  # will have shape ...
@@ -296,32 +297,25 @@ class KernelLinearOperator(LinearOperator):
             if not isinstance(row_index, slice) or not isinstance(col_index, slice):
                 # It's too complicated to deal with tensor indices in this case - we'll use the super method
                 try:
-                    return self.covar_mat._getitem(row_index, col_index, *batch_indices)
+                    return to_linear_operator(self.covar_mat)._getitem(row_index, col_index, *batch_indices)
                 except Exception:
                     raise TypeError(
                         f"{self.__class__.__name__} does not accept non-slice indices. "
-                        f"Got {','.join(type(t) for t in [*batch_indices, row_index, col_index])}"
+                        f"Got {','.join(type(t).__name__ for t in [*batch_indices, row_index, col_index])}"
                     )
 
             # Now we know that x1 and x2 are slices
             # Let's make sure that the slice dimensions perfectly correspond with the number of
             # outputs per input that we have
             *batch_shape, num_rows, num_cols = self._size()
-            row_start, row_end, row_step = (
-                row_index.start if row_index.start is not None else 0,
-                row_index.stop if row_index.stop is not None else num_rows,
-                row_index.step if row_index.step is not None else 1,
-            )
-            col_start, col_end, col_step = (
-                col_index.start if col_index.start is not None else 0,
-                col_index.stop if col_index.stop is not None else num_cols,
-                col_index.step if col_index.step is not None else 1,
-            )
-            if row_step is not None or col_step is not None:
+            # Resolve None / negative / over-long bounds the way python slicing does
+            row_start, row_end, row_step = row_index.indices(num_rows)
+            col_start, col_end, col_step = col_index.indices(num_cols)
+            if row_step != 1 or col_step != 1:
                 # It's too complicated to deal with tensor indices in this case - we'll try to evaluate the kernel
                 # and use the super method
                 try:
-                    return self.covar_mat._getitem(row_index, col_index, *batch_indices)
+                    return to_linear_operator(self.covar_mat)._getitem(row_index, col_index, *batch_indices)
                 except Exception:
                     raise TypeError(f"{self.covar_mat.__class__.__name__} does not accept slices with steps.")
             if (
@@ -333,7 +327,7 @@ class KernelLinearOperator(LinearOperator):
                 # It's too complicated to deal with tensor indices in this case - we'll try to evaluate the kernel
                 # and use the super method
                 try:
-                    return self.covar_mat._getitem(row_index, col_index, *batch_indices)
+                    return to_linear_operator(self.covar_mat)._getitem(row_index, col_index, *batch_indices)
                 except Exception:
                     raise TypeError(
                         f"{self.covar_mat.__class__.__name__} received an invalid slice. "
